@@ -1570,8 +1570,10 @@ class FnTranslatorX(rs.FnTranslator):
         res_ty = " × ".join(parts)
         if isinstance(elem_t, TEnum):
             elem_t = TTuple([elem_t.items[1], elem_t.items[0]])
-        lines = ["/-- `for %s` (line %d): recursive on the remaining items; `break` / `return` end the recursion -/"
-                 % (self.src_text(s, None)[4:].strip(), self.src.line_of(s.pos)),
+        head = self.src_text(s, None)
+        head = head if head.startswith("for ") else "… " + head + " {…}"       # `iter.for_each(|p| …)`
+        lines = ["/-- `%s` (line %d): recursive on the remaining items; `break` / `return` end the recursion -/"
+                 % (head, self.src.line_of(s.pos)),
                  "%s : List %s → %s → Res %s" % (self.helper_header(name, caps), paren_ty(elem_t.lean()), paren_ty(st_ty),
                                                    paren_ty(res_ty)),
                  "  | [], %s => pure %s" % (tuple_pat([v.lean for v in state]), atom(result("none", "[]"))),
@@ -1785,3 +1787,127 @@ def restrict(src, f):
     v.line_of = src.line_of
     v.fn_body = lambda rx_, what: type(src).fn_body(v, rx_, what)
     return v
+
+
+# ================================================================================================== self-test (dialect cf)
+
+SELFTEST_RS = r"""
+use std::collections::VecDeque;
+pub struct Acc { pending: VecDeque<u32>, total: u32, seq: std::vec::IntoIter<u32> }
+impl Acc {
+    // first element >= limit (consumed), smaller ones are queued; `None` when the iterator runs dry
+    fn pull(&mut self, limit: u32) -> Option<u32> {
+        let mut seen: u32;
+        for x in self.seq.by_ref() {
+            seen = x;
+            if seen >= limit {
+                return Some(seen);
+            }
+            self.pending.push_back(x);
+            self.total += x;
+        }
+        None
+    }
+}
+pub fn first_gap(xs: &[u32]) -> usize {
+    let mut n = 0;
+    for (i, &x) in xs.iter().enumerate() {
+        if x as usize != i {
+            break;
+        }
+        n = i + 1;
+    }
+    n
+}
+pub fn classify(xs: &[u8]) -> (usize, usize) {
+    xs.iter().fold((0usize, 0usize), |(a, b), c| match *c {
+        b'a' | b'e' => (a + 1, b),
+        _ => (a, b + 1),
+    })
+}
+pub fn head_or(q: &mut VecDeque<u32>, d: u32) -> u32 {
+    match q.pop_front() {
+        Some(v) => v,
+        None => d,
+    }
+}
+"""
+
+SELFTEST_UNIT = dict(
+    name="SrcSelfTestCf", props="self-test", file="src/selftest_cf.rs", dialect="cf",
+    functions=[
+        dict(name="Acc::pull", lean="pull", header="fn pull(&mut self, limit: u32) -> Option<u32>",
+             self_fields=[("pending", "VecDeque<u32>"), ("total", "u32"), ("seq", "Iter<u32>")],
+             params=[("limit", "u32")], ret="Option<u32>"),
+        dict(name="first_gap", lean="firstGap", header="pub fn first_gap(xs: &[u32]) -> usize",
+             params=[("xs", "&[u32]")], ret="usize", locals={"n": "usize"}),
+        dict(name="classify", lean="classify", header="pub fn classify(xs: &[u8]) -> (usize, usize)",
+             params=[("xs", "&[u8]")], ret="(usize, usize)"),
+        dict(name="head_or", lean="headOr", header="pub fn head_or(q: &mut VecDeque<u32>, d: u32) -> u32",
+             params=[("q", "&mut VecDeque<u32>"), ("d", "u32")], ret="u32"),
+    ])
+
+SELFTEST_REFUSED = [
+    ("for i in 0..n { while v[i] > 0 { return i; } } n", "fuel|`return` inside a loop"),
+    ("let c = |a: usize| a + 1; n", "closure"),
+    ("for i in 0..n { match v[i] { 0 => break, _ => continue } } n", "inside a `match`|pattern|`break`"),
+    ("let w = v.iter().map(|b| *b as usize).sum::<usize>(); w", "turbofish|`.sum"),
+]
+
+
+def selftest(with_lean, tmp):
+    """called by `rs2lean.py --selftest`: translate the snippets above, evaluate them with lean, check the refusals"""
+    import os, subprocess
+    import gen_tables
+
+    class Refused(Exception):
+        pass
+
+    def refuse(msg):
+        raise Refused(msg)
+    ok = True
+    with open(os.path.join(tmp, "src", "selftest_cf.rs"), "w") as f:
+        f.write(SELFTEST_RS)
+    src = gen_tables.Src(tmp, "src/selftest_cf.rs")
+    try:
+        text, _ = rs.translate_unit(src, SELFTEST_UNIT, refuse)
+        text2, _ = rs.translate_unit(src, SELFTEST_UNIT, refuse)
+    except Refused as r:
+        print("selftest(cf): refused: %s" % r)
+        return False
+    if text != text2:
+        print("selftest(cf): translation is not deterministic")
+        ok = False
+    checks = ["#eval pull [] 0 [1, 2, 9, 3] 5   -- ok ([1, 2], 3, [3], some 9)",
+              "#eval pull [7] 7 [1, 2] 5   -- ok ([7, 1, 2], 10, [], none)",
+              "#eval firstGap [0, 1, 2, 7, 4]   -- ok 3",
+              "#eval classify [97, 98, 101, 122]   -- ok (2, 2)",
+              "#eval headOr [4, 5] 9   -- ok ([5], 4)", "#eval headOr [] 9   -- ok ([], 9)"]
+    lean_text = text.replace("end RbV.Gen.SrcSelfTestCf", "\n".join(checks) + "\nend RbV.Gen.SrcSelfTestCf")
+    if with_lean:
+        lf = os.path.join(tmp, "SelfTestCf.lean")
+        with open(lf, "w") as f:
+            f.write(lean_text)
+        lean_dir = os.path.join(os.path.dirname(os.path.dirname(os.path.abspath(__file__))), "lean")
+        p = subprocess.run(["lake", "env", "lean", lf], cwd=lean_dir, stdout=subprocess.PIPE, stderr=subprocess.STDOUT,
+                           text=True, timeout=600)
+        print(p.stdout.strip())
+        want = ["([1, 2], 3, [3], some 9)", "([7, 1, 2], 10, [], none)", "Res.ok 3", "Res.ok (2, 2)", "([5], 4)", "([], 9)"]
+        if p.returncode != 0 or any(w not in p.stdout for w in want):
+            print("selftest(cf): the generated Lean does not compile or evaluates differently")
+            ok = False
+    for body, expect in SELFTEST_REFUSED:
+        with open(os.path.join(tmp, "src", "selftest_cf.rs"), "w") as f:
+            f.write("fn f(v: &[u8], n: usize) -> usize {\n    %s\n}\n" % body)
+        u = dict(name="SrcNegCf", props="self-test", file="src/selftest_cf.rs", dialect="cf",
+                 functions=[dict(name="f", lean="f", header="fn f(v: &[u8], n: usize) -> usize",
+                                 params=[("v", "&[u8]"), ("n", "usize")], ret="usize")])
+        try:
+            rs.translate_unit(gen_tables.Src(tmp, "src/selftest_cf.rs"), u, refuse)
+            print("selftest(cf): NOT refused: %s" % body)
+            ok = False
+        except Refused as r:
+            if not re.search(expect, str(r)):
+                print("selftest(cf): refused for another reason: %s: %s" % (body, r))
+                ok = False
+    return ok
